@@ -458,3 +458,66 @@ def float_member(elem, v):
   range [lo, hi] (NaN is inside no range); `scale` is a hint and never
   changes the set."""
   return isinstance(v, float) and v == v and elem['lo'] <= v <= elem['hi']
+
+
+# --------------------------------------------------------------------------
+# Enumeration from a given member on (added for C12; nothing above uses it).
+# --------------------------------------------------------------------------
+
+def enumerate_from(space, start):
+  """Yields the members >= `start` (a member) of a finite space in reference
+  order, `start` itself first, without visiting the members before it: the
+  branches that lie before `start` are pruned pick by pick."""
+  for m, _ in _from_elems(space['elems'], 0, tuple(start), True):
+    yield m
+
+
+def successor(space, flat):
+  """The member that follows `flat` in reference order; None for the last."""
+  it = enumerate_from(space, flat)
+  first = next(it, None)
+  if first is None or tuple(first) != tuple(flat):
+    raise ValueError('not a member: %r' % (flat,))
+  return next(it, None)
+
+
+def first_member(space):
+  """First member of a finite space in reference order."""
+  return next(enumerate_flat(space))
+
+
+def _from_elems(elems, i, rest, tight):
+  """(member part of elems[i:], still equal to the start so far?); `rest` is
+  what remains of the start while `tight`."""
+  if i == len(elems):
+    yield (), tight
+    return
+  for head, t in _from_elem(elems[i], rest, tight):
+    r = rest[len(head):] if t else ()
+    for tail, t2 in _from_elems(elems, i + 1, r, t):
+      yield head + tail, t2
+
+
+def _from_elem(e, rest, tight):
+  if e['t'] != 'choice':
+    raise ValueError('infinite space cannot be enumerated')
+  tuples = pick_tuples(e)
+  prefixes = {t[:i] for t in tuples for i in range(e['k'] + 1)}
+  yield from _from_picks(e, (), prefixes, rest, tight)
+
+
+def _from_picks(e, prior, prefixes, rest, tight):
+  if len(prior) == e['k']:
+    yield (), tight
+    return
+  for p in range(len(e['cands'])):
+    if prior + (p,) not in prefixes:
+      continue
+    if tight and (not rest or p < rest[0]):
+      continue
+    t = tight and p == rest[0]
+    for sub, t1 in _from_elems(e['cands'][p]['elems'], 0, rest[1:] if t else (), t):
+      head = (p,) + sub
+      r = rest[len(head):] if t1 else ()
+      for tail, t2 in _from_picks(e, prior + (p,), prefixes, r, t1):
+        yield head + tail, t2
